@@ -32,6 +32,9 @@ pub enum FOp {
     Clear,
     /// set a clone aside, keep mutating the original, re-inspect the clone at the end
     Fork,
+    /// `a.union(&b)` with an operand of a *different* configuration (`variant` says which parameter
+    /// differs). The documented reaction is a panic; if the call returns Ok instead, C01 applies.
+    UnionMismatch(BSpec, u8),
 }
 
 #[derive(Clone, Debug, Serialize, Deserialize)]
@@ -753,6 +756,56 @@ impl<'a> Exec<'a> {
                         return;
                     }
                 }
+                FOp::UnionMismatch(spec, variant) => {
+                    let other_kind = match (&case.kind, variant % 3) {
+                        (FKind::Bloom { m, k }, 0) => FKind::Bloom { m: (m / 2).max(1), k: *k },
+                        (FKind::Bloom { m, k }, 1) => FKind::Bloom { m: m * 2, k: *k },
+                        (FKind::Bloom { m, k }, _) => FKind::Bloom { m: *m, k: k + 1 },
+                        (FKind::Cuckoo { bucketsize, n_buckets, l_fp }, 0) => FKind::Cuckoo { bucketsize: *bucketsize, n_buckets: n_buckets * 2, l_fp: *l_fp },
+                        (FKind::Cuckoo { bucketsize, n_buckets, l_fp }, 1) => FKind::Cuckoo { bucketsize: bucketsize + 1, n_buckets: *n_buckets, l_fp: *l_fp },
+                        (FKind::Cuckoo { bucketsize, n_buckets, l_fp }, _) => FKind::Cuckoo { bucketsize: *bucketsize, n_buckets: *n_buckets, l_fp: if *l_fp > 2 { l_fp - 1 } else { l_fp + 1 } },
+                        (FKind::Quotient { q, r }, 0) if q + r < 64 => FKind::Quotient { q: q + 1, r: *r },
+                        (FKind::Quotient { q, r }, 1) if *q > 1 => FKind::Quotient { q: q - 1, r: *r },
+                        (FKind::Quotient { q, r }, _) => FKind::Quotient { q: *q, r: if *r > 1 { r - 1 } else { r + 1 } },
+                        (FKind::Set, _) => continue,
+                    };
+                    if other_kind == case.kind {
+                        continue;
+                    }
+                    let mut b = AnyFilter::build(&other_kind, case.hasher, spec.rng_seed, &[]);
+                    let mut b_live: Vec<u64> = vec![];
+                    for &k in &spec.keys {
+                        if self.idx.contains_key(&k) && b.insert(k).is_ok() {
+                            b_live.push(k);
+                        }
+                    }
+                    self.stats.steps += 1;
+                    match guarded(|| f.union(&b)) {
+                        Caught::LibPanic(..) => {
+                            // the documented reaction; the assertion fires before anything is written
+                            self.stats.probe("mismatched_union_panicked");
+                        }
+                        Caught::Ok(res) => {
+                            self.stats.probe("mismatched_union_returned");
+                            if res.is_ok() {
+                                let after = self.snap(&f);
+                                let mut lost = None;
+                                for (i, &k) in case.universe.iter().enumerate() {
+                                    if (m.live[i] > 0 || b_live.contains(&k)) && !after.q[i] {
+                                        lost = Some(k);
+                                        break;
+                                    }
+                                }
+                                if let (Some(k), true) = (lost, self.c01_valid) {
+                                    self.viol.push(v("C01", format!("{}/union/mismatched-operand-accepted-false-negative", self.kname), self.step,
+                                        format!("union with an operand of configuration {:?} (self: {:?}) returned Ok, afterwards key {} of a or b is not reported", other_kind, case.kind, k)));
+                                }
+                            }
+                            // whatever was accepted, the model no longer describes the filter
+                            return;
+                        }
+                    }
+                }
                 FOp::Clear => {
                     f.clear();
                     self.stats.fault("node_restart");
@@ -833,7 +886,7 @@ pub fn gen_kind(g: &mut Sm, which: u8, realistic: bool) -> FKind {
             if realistic {
                 FKind::Cuckoo { bucketsize: *g.pick(&[2, 4, 8]), n_buckets: 1 << g.range(4, 10), l_fp: *g.pick(&[8, 12, 16, 32, 64]) }
             } else {
-                FKind::Cuckoo { bucketsize: g.range(2, 4) as usize, n_buckets: 1 << g.range(1, 3), l_fp: if g.chance(1, 10) { *g.pick(&[13, 16, 31, 32, 33, 63, 64]) } else { g.range(2, 8) as usize } }
+                FKind::Cuckoo { bucketsize: g.range(2, 4) as usize, n_buckets: 1 << g.range(1, 3), l_fp: if g.chance(3, 20) { *g.pick(&[13, 16, 31, 32, 33, 63, 64, 64]) } else { g.range(2, 8) as usize } }
             }
         }
         2 => {
@@ -842,7 +895,7 @@ pub fn gen_kind(g: &mut Sm, which: u8, realistic: bool) -> FKind {
                 FKind::Quotient { q, r: *g.pick(&[4usize, 8, 16, 32, 52]).min(&(64 - q)) }
             } else {
                 let q = g.range(1, 4) as usize;
-                let r = if g.chance(1, 12) { *g.pick(&[16usize, 32, 60]) } else { g.range(1, 4) as usize };
+                let r = if g.chance(1, 8) { *g.pick(&[16usize, 32, 33, 40, 48, 60]) } else { g.range(1, 4) as usize };
                 FKind::Quotient { q, r: r.min(64 - q) }
             }
         }
@@ -870,7 +923,12 @@ pub fn gen_universe(g: &mut Sm, kind: &FKind, hasher: &SimHasher, n: usize) -> V
                 }
                 FKind::Cuckoo { n_buckets, l_fp, .. } => {
                     let fpspan = if l_fp >= 32 { u32::MAX as u64 } else { ((1u64 << l_fp) - 1) * 2 + 1 };
-                    let fp = g.below(fpspan.min(12)) + if g.chance(1, 6) { g.below(fpspan) } else { 0 };
+                    let fp = if l_fp >= 63 && g.chance(1, 4) {
+                        // fingerprint hashes at the top of the u64 range (see HashMode::Identity)
+                        *g.pick(&[0xFFFF_FFFFu64, 0xFFFF_FFFE, 0xFFFF_FFFD, 0xFFFF_FF00])
+                    } else {
+                        g.below(fpspan.min(12)) + if g.chance(1, 6) { g.below(fpspan) } else { 0 }
+                    };
                     let bucket = g.below(2 * n_buckets as u64);
                     ((fp & 0xffff_ffff) << 32) | bucket
                 }
@@ -880,6 +938,20 @@ pub fn gen_universe(g: &mut Sm, kind: &FKind, hasher: &SimHasher, n: usize) -> V
             g.below(4 * n as u64)
         } else {
             g.u64()
+        };
+        // aliases: a key that differs from an existing one in a single bit (truncation of a
+        // fingerprint, remainder or index to a narrower integer makes such keys collide)
+        let k = if !u.is_empty() && g.chance(1, 5) {
+            let base = u[g.usize(u.len())];
+            let bit = match g.below(4) {
+                0 => g.below(64),
+                1 => 32 + g.below(32),
+                2 => 16 + g.below(16),
+                _ => g.below(16),
+            };
+            base ^ (1u64 << bit)
+        } else {
+            k
         };
         if !u.contains(&k) {
             u.push(k);
@@ -982,6 +1054,10 @@ impl Scenario for S1 {
                 ops.push(FOp::EnumInserts { salts: g.range(1, 3) as u8 });
             } else if x < p_delete + p_union + p_try + p_enum + 1 {
                 ops.push(if g.chance(1, 2) { FOp::Clear } else { FOp::Fork });
+            } else if prop == "C01" && x < p_delete + p_union + p_try + p_enum + 2 && g.chance(1, 3) {
+                let nk = g.range(1, 8);
+                let keys: Vec<u64> = (0..nk).map(|_| pick_key(&mut g)).collect();
+                ops.push(FOp::UnionMismatch(BSpec { keys, rng_seed: g.u64(), deletes: vec![] }, g.below(3) as u8));
             } else {
                 ops.push(FOp::Insert(pick_key(&mut g)));
             }
@@ -1064,7 +1140,7 @@ impl Scenario for S1 {
             .iter()
             .flat_map(|op| match op {
                 FOp::Insert(k) | FOp::Delete(k) => vec![*k],
-                FOp::Union(s) | FOp::TryUnion(s) => s.keys.clone(),
+                FOp::Union(s) | FOp::TryUnion(s) | FOp::UnionMismatch(s, _) => s.keys.clone(),
                 _ => vec![],
             })
             .collect();
